@@ -587,6 +587,45 @@ theorem c18_url_rule (suites : List Suite) (reg : List (Str × Suite)) (hc : Pri
     have hk' : hc.wsKey = [] := by simpa using hk
     exact ⟨fun _ => rfl, fun _ c => absurd hk' c⟩
 
+/-! ### the text may arrive in any chunking -/
+
+private theorem readAllFrom_eq : ∀ (chunks : List Str) (buf : Str), readAllFrom chunks buf = buf ++ chunks.flatten
+  | [], buf => by simp [readAllFrom]
+  | c :: cs, buf => by simp [readAllFrom, readAllFrom_eq cs, List.append_assoc]
+
+/-- **c18_reader_chunking_irrelevant**: reading a group definition is a function of the text alone — however the
+reader cuts it into chunks (one byte per `Read`, half reads, a pipe written table by table, everything at once),
+the result is that of the whole text; two deliveries of the same text give the same identities and roster
+identifier.  Falsified by a reader loop that stops early: one `Read` into a fixed buffer, a loop that ends at the
+first short read. -/
+theorem c18_reader_chunking_irrelevant (suites : List Suite) (reg : List (Str × Suite)) (bad : List Str)
+    (chunks chunks' : List Str) (text : Str) (h : chunks.flatten = text) (h' : chunks'.flatten = text) :
+    readGroupReader suites reg bad chunks = readGroupFile suites reg bad text ∧
+    readGroupReader suites reg bad chunks = readGroupReader suites reg bad chunks' := by
+  have e : ∀ c : List Str, readAll c = c.flatten := fun c => by simp [readAll, readAllFrom_eq]
+  simp only [readGroupReader, e, h, h', and_self]
+
+/-- a reader that takes the first chunk for the whole text loses the rest whenever there is a rest -/
+theorem c18_single_read_loses_text (a b : Str) (hb : b ≠ []) : readOnce [a, b] ≠ readAll [a, b] := by
+  simp only [readOnce, readAll, readAllFrom, List.head?_cons, Option.getD_some, List.nil_append]
+  intro h
+  have := congrArg List.length h
+  simp only [List.length_append] at this
+  have hl : 0 < b.length := List.length_pos_iff.mpr hb
+  omega
+
+/-- … and what it reads may still be a well-formed group definition — with fewer servers (another roster
+identifier, no error): two `[[servers]]` tables delivered table by table -/
+example :
+    let t1 : Str := [91, 91, 115, 101, 114, 118, 101, 114, 115, 93, 93, 10, 80, 117, 98, 108, 105, 99, 32, 61, 32, 34, 97, 34, 10]
+    let t2 : Str := [91, 91, 115, 101, 114, 118, 101, 114, 115, 93, 93, 10, 80, 117, 98, 108, 105, 99, 32, 61, 32, 34, 98, 34, 10]
+    Toml.readGroupText (readOnce [t1, t2]) =
+      .ok [{ address := [], suite := [], pub := [97], description := [], url := [], services := none }] ∧
+    Toml.readGroupText (readAll [t1, t2]) =
+      .ok [{ address := [], suite := [], pub := [97], description := [], url := [], services := none },
+           { address := [], suite := [], pub := [98], description := [], url := [], services := none }] := by
+  decide
+
 /-! ### the per-service keys of an identity, asked for by name (network/struct.go:213-258) -/
 
 private theorem find_of_mem_nodup : ∀ {l : List SvcId}, (l.map (·.name)).Nodup → ∀ {s : SvcId}, s ∈ l →
